@@ -96,7 +96,7 @@ PROPERTIES = {
         'assumptions': ['Event accessors id/pubkey/kind/created_at/tags are used by contract (their bodies are under proof in unit `event`)'],
     },
     'C03': {
-        'units': ['utf8', 'escape', 'lex', 'hexread', 'tagsjson', 'event_parse', 'filter_parse', 'addr', 'hexwrite', 'hll_hex'],
+        'units': ['utf8', 'escape', 'lex', 'hexread', 'tagsjson', 'event_parse', 'filter_parse', 'from_json', 'addr', 'hexwrite', 'hll_hex', 'tags', 'event', 'filter'],
         'sample_functions': ['next_code_point', 'json_unescape', 'read_u64', 'read_id'],
         'not_decided': [],
     },
